@@ -245,7 +245,7 @@ fn e3(ctx: &Ctx, res: &mut PartResult, length_prefix: bool, prefix: Option<&'sta
     }
     for max_len in lens(!ctx.quick()) {
         if ctx.over_budget() {
-            res.cap_hit = Some("wall budget".into());
+            res.cap_hit = Some("budget (cpu time of the part)".into());
             res.exhaustive = false;
             break;
         }
